@@ -11,6 +11,7 @@
 //	CH <- V                                  ->  send(CH, V)
 //	select { case <-CH: default: }           ->  tryRecv(CH)
 //	<-CH  (in an expression)                 ->  recv(CH)
+//	select { case <-A: B1  case x := <-C: B2 }  ->  if selectRecv(A, C) { B1 } else { x := recv(C); B2 }
 //	a * b, a / b, a << b, a >> b             ->  mul(a, b), div(a, b), shl(a, b), shr(a, b)   (not both literals)
 //	log.X(args…)                             ->  log.X()          (messages are not part of the behaviour)
 //
@@ -45,8 +46,11 @@ func rewriteStmt(s ast.Stmt) ast.Stmt {
 		}
 		c0, ok0 := x.Body.List[0].(*ast.CommClause)
 		c1, ok1 := x.Body.List[1].(*ast.CommClause)
-		if !ok0 || !ok1 || !emptyBody(c0) || !emptyBody(c1) {
+		if !ok0 || !ok1 {
 			return s
+		}
+		if !emptyBody(c0) || !emptyBody(c1) {
+			return rewriteSelectRecv2(s, c0, c1)
 		}
 		if es, ok := c0.Comm.(*ast.ExprStmt); ok && c1.Comm == nil {
 			// select { case <-CH: default: }  ->  tryRecv(CH)
@@ -77,6 +81,33 @@ func rewriteStmt(s ast.Stmt) ast.Stmt {
 		}
 	}
 	return s
+}
+
+// rewriteSelectRecv2: select { case <-A: B1  case x := <-C: B2 }  ->  if selectRecv(A, C) { B1 } else { x := recv(C); B2 }
+// (`selectRecv` = "the first case fired": which one does is for the environment to say).
+func rewriteSelectRecv2(s ast.Stmt, c0, c1 *ast.CommClause) ast.Stmt {
+	es, ok := c0.Comm.(*ast.ExprStmt)
+	if !ok || c1.Comm == nil {
+		return s
+	}
+	u, ok := es.X.(*ast.UnaryExpr)
+	if !ok || u.Op != token.ARROW {
+		return s
+	}
+	as, ok := c1.Comm.(*ast.AssignStmt)
+	if !ok || as.Tok != token.DEFINE || len(as.Lhs) != 1 || len(as.Rhs) != 1 {
+		return s
+	}
+	u2, ok := as.Rhs[0].(*ast.UnaryExpr)
+	if !ok || u2.Op != token.ARROW {
+		return s
+	}
+	els := append([]ast.Stmt{&ast.AssignStmt{Lhs: as.Lhs, Tok: token.DEFINE, Rhs: []ast.Expr{&ast.CallExpr{Fun: ast.NewIdent("recv"), Args: []ast.Expr{u2.X}}}}}, c1.Body...)
+	return &ast.IfStmt{
+		Cond: &ast.CallExpr{Fun: ast.NewIdent("selectRecv"), Args: []ast.Expr{u.X, u2.X}},
+		Body: &ast.BlockStmt{List: c0.Body},
+		Else: &ast.BlockStmt{List: els},
+	}
 }
 
 func rewriteList(l []ast.Stmt) {
@@ -286,6 +317,7 @@ func genBody(c *ex.Ctx) {
 		{"vaxis.go", "Vaxis", "QueryColor", "qc", 0},
 		{"vaxis.go", "Vaxis", "QueryForeground", "qf", 0},
 		{"vaxis.go", "Vaxis", "QueryBackground", "qb", 0},
+		{"vaxis.go", "Vaxis", "CursorPosition", "cp", 0},
 	} {
 		f := c.Parse(fn.file)
 		if f == nil {
